@@ -60,6 +60,17 @@ import (
 
 func init() { register("C16", &Prop{Gen: genC16, Run: runC16}) }
 
+// keys of C16 programs: the shared alphabet without the empty key (the network service documents
+// keys of 1..4096 bytes and rejects an empty key before it looks at the node's role: that rejection
+// is C19's subject, not a read-only refusal)
+func c16Key(r *rand.Rand, nkeys int) []byte {
+	for {
+		if k := genKey(r, nkeys); len(k) > 0 {
+			return k
+		}
+	}
+}
+
 // ---------------------------------------------------------------------------------------
 // node under test
 // ---------------------------------------------------------------------------------------
@@ -1372,9 +1383,9 @@ func c16Val(r *rand.Rand) string {
 func c16Bops(w *bufio.Writer, r *rand.Rand, n, nkeys int) {
 	for j := 0; j < n; j++ {
 		if r.Intn(4) == 0 {
-			fmt.Fprintf(w, "d %s\n", mkTok(genKey(r, nkeys)))
+			fmt.Fprintf(w, "d %s\n", mkTok(c16Key(r, nkeys)))
 		} else {
-			fmt.Fprintf(w, "p %s %s\n", mkTok(genKey(r, nkeys)), c16Val(r))
+			fmt.Fprintf(w, "p %s %s\n", mkTok(c16Key(r, nkeys)), c16Val(r))
 		}
 	}
 }
@@ -1438,7 +1449,7 @@ func genC16(w *bufio.Writer, seed int64, n int, tier string) {
 		nh := 0         // handles begun so far
 		var open []int  // handles believed open
 		rwOpen := false // writable node: a read-write transaction is open, only its own lines may follow
-		key := func() string { return mkTok(genKey(r, nkeys)) }
+		key := func() string { return mkTok(c16Key(r, nkeys)) }
 		for i := 0; i < nops; i++ {
 			if rwOpen {
 				// finish the read-write transaction before anything that needs the lock
@@ -1547,7 +1558,7 @@ func genC16(w *bufio.Writer, seed int64, n int, tier string) {
 					fmt.Fprintf(w, "r sync\n")
 				}
 			case 11:
-				fmt.Fprintf(w, "%s Get %s\n", []string{"e", "g"}[r.Intn(2)], mkTok(genKey(r, nkeys+1)))
+				fmt.Fprintf(w, "%s Get %s\n", []string{"e", "g"}[r.Intn(2)], mkTok(c16Key(r, nkeys+1)))
 			case 12:
 				fmt.Fprintf(w, "g Scan\n")
 			case 13:
